@@ -460,7 +460,7 @@ func (e *env) replica(t *testing.T, wal bool, ahead bool, op func(c *lab.Cluster
 
 // replicaFork: a former primary that committed one transaction of its own at the TXID the new primary also used (a fork
 // of equal length) rejoins and is sent a snapshot ending at the very TXID its own log ends with; crash at every point.
-func (e *env) replicaFork(t *testing.T, wal bool, longer bool) {
+func (e *env) replicaFork(t *testing.T, wal bool, extra int) {
 	c := lab.NewCluster(10 * time.Second)
 	defer c.Close()
 	col := &collector{base: e.base}
@@ -526,11 +526,11 @@ func (e *env) replicaFork(t *testing.T, wal bool, longer bool) {
 		e.res.Harness = "R1's transaction: " + err.Error()
 		return
 	}
-	if longer {
-		// the fork is one transaction longer than the new primary's history: the snapshot rewinds the node
+	for i := 0; i < extra; i++ {
+		// the fork is one (two) transaction(s) longer than the new primary's history: the snapshot rewinds the node
 		base = imgB
-		if imgB, err = commit(R, 13, 2); err != nil {
-			e.res.Harness = "R1's second transaction: " + err.Error()
+		if imgB, err = commit(R, 13+uint64(i), 2+uint32(i)); err != nil {
+			e.res.Harness = "R1's further transaction: " + err.Error()
 			return
 		}
 	}
@@ -540,7 +540,7 @@ func (e *env) replicaFork(t *testing.T, wal bool, longer bool) {
 		return
 	}
 	before := posOf(R.DB("db"))
-	if pp := posOf(P.DB("db")); (!longer && before[0] != pp[0]) || (longer && before[0] != pp[0]+1) || before == pp {
+	if pp := posOf(P.DB("db")); before[0] != pp[0]+uint64(extra) || before == pp {
 		e.res.Harness = fmt.Sprintf("no fork of the wanted length: R1 %v P %v", before, pp)
 		return
 	}
@@ -935,7 +935,7 @@ func Run1(t *testing.T, c Case) (res Result) {
 				return cur, nil
 			}, false)
 		case "H11c-replica-fork-resnapshot":
-			e.replicaFork(t, c.Variant%2 == 1, c.Variant/2 == 1)
+			e.replicaFork(t, c.Variant%2 == 1, c.Variant/2)
 		case "H13-replica-tombstone":
 			e.replica(t, c.Variant%2 == 1, false, func(cl *lab.Cluster, P *lab.Node, a *pager.Conn, img *oracle.Image) (*oracle.Image, error) {
 				a.Close()
@@ -989,7 +989,7 @@ func RunAll(run *vlib.Run, only func(h string) bool) map[string]any {
 	}{
 		{"H1-first-tx", 6}, {"H2-grow", 3}, {"H3-shrink", 3}, {"H4-multi-segment", 3}, {"H4b-segment-ends-on-sector-boundary", 1}, {"H5-rollback-after-spill", 3},
 		{"H6-wal-fresh", 3}, {"H7-wal-after-restart", 2}, {"H7b-wal-second-tx", 2}, {"H7c-wal-unwritten-tail", 2}, {"H8-sqlite-checkpoint", 4}, {"H8b-wal-tx-after-checkpoint", 2}, {"H9-litefs-recover", 2},
-		{"H12-drop", 6}, {"H16-leave-wal", 3}, {"H14-import", 4}, {"H10-replica-incremental", 2}, {"H10w-replica-incremental-wal", 2}, {"H11-replica-snapshot", 2}, {"H11b-replica-resnapshot", 2}, {"H11c-replica-fork-resnapshot", 4}, {"H15-restore-from-backup", 2}, {"H13-replica-tombstone", 2},
+		{"H12-drop", 6}, {"H16-leave-wal", 3}, {"H14-import", 4}, {"H10-replica-incremental", 2}, {"H10w-replica-incremental-wal", 2}, {"H11-replica-snapshot", 2}, {"H11b-replica-resnapshot", 2}, {"H11c-replica-fork-resnapshot", 6}, {"H15-restore-from-backup", 2}, {"H13-replica-tombstone", 2},
 	}
 	type geo struct {
 		ps    int
